@@ -1,4 +1,4 @@
-use std::{rc::Rc, vec};
+use std::{collections::HashSet, rc::Rc, vec};
 
 use crate::{
     cfg::{Cfg, CfgNode, Function, RegisterSet},
@@ -24,10 +24,12 @@ impl FunctionMarkupPass {
         func: &Rc<Function>,
     ) -> Result<MarkData, Box<CfgError>> {
         let mut defs = RegisterSet::new(); // Registers this function writes to
-        let mut returns = None; // Return instructions in this function
         let mut instructions = vec![];
 
-        // Traverse the CFG for all nodes reachable from the entry point
+        // Traverse the CFG for all nodes reachable from the entry point.
+        // Returns are rewritten only after the traversal: rewriting a node
+        // changes its key, which the traversal (and every set holding the
+        // node) relies on.
         for node in cfg.iter_nexts(Rc::clone(entry)) {
             // Mark the node as being a part of the given function
             instructions.push(Rc::clone(&node));
@@ -37,39 +39,58 @@ impl FunctionMarkupPass {
             if let Some(dest) = node.writes_to() {
                 defs |= dest.get_cloned();
             }
+        }
 
-            // Collect return instructions
-            if node.is_return() {
-                // Set the newly found return to be an jump to the previously
-                // found return.
-                if let Some(ref prev_ret) = returns {
-                    let found_ret = Rc::clone(&node);
+        // Return instructions in this function, in program order
+        let reachable = instructions
+            .iter()
+            .map(Rc::as_ptr)
+            .collect::<HashSet<*const CfgNode>>();
+        let found_returns = cfg
+            .iter()
+            .filter(|node| node.is_return() && reachable.contains(&Rc::as_ptr(node)))
+            .collect::<Vec<_>>();
 
-                    // Fix the prevs & nexts of both returns
-                    found_ret.clear_nexts();
-                    found_ret.insert_next(Rc::clone(prev_ret));
-                    prev_ret.insert_prev(Rc::clone(&found_ret));
+        // A return that is already the exit of another function must stay a
+        // return: that function's exit would otherwise stop being one. Prefer
+        // such a return as the exit, so that overlapping functions share it.
+        let is_exit_of_other_function = |node: &Rc<CfgNode>| {
+            node.functions()
+                .iter()
+                .any(|other| !Rc::ptr_eq(other, func) && Rc::ptr_eq(&other.exit(), node))
+        };
+        let returns = found_returns
+            .iter()
+            .find(|node| is_exit_of_other_function(node))
+            .or_else(|| found_returns.first())
+            .cloned();
 
-                    // Convert the found return into a jump
-                    let info = Token::new(
-                        TokenType::Symbol("return".to_string()),
-                        found_ret.raw_text(),
-                        found_ret.range(),
-                        found_ret.file(),
-                    );
+        if let Some(ref prev_ret) = returns {
+            // Set every other return to be a jump to the chosen return.
+            for found_ret in found_returns
+                .iter()
+                .filter(|node| !Rc::ptr_eq(node, prev_ret) && !is_exit_of_other_function(node))
+            {
+                // Fix the prevs & nexts of both returns
+                found_ret.clear_nexts();
+                found_ret.insert_next(Rc::clone(prev_ret));
+                prev_ret.insert_prev(Rc::clone(found_ret));
 
-                    let inst = With::new(JumpLinkType::Jal, info.clone());
-                    let rd = With::new(Register::X0, info.clone());
-                    let name = With::new(LabelString::new("__return__"), info.clone());
-                    let new_node =
-                        ParserNode::new_jump_link(inst, rd, name, prev_ret.node().token().clone());
-                    #[allow(unused_must_use)]
-                    found_ret.set_node(new_node);
-                }
-                // If this is the first return node, save it
-                else {
-                    returns = Some(Rc::clone(&node));
-                }
+                // Convert the found return into a jump
+                let info = Token::new(
+                    TokenType::Symbol("return".to_string()),
+                    found_ret.raw_text(),
+                    found_ret.range(),
+                    found_ret.file(),
+                );
+
+                let inst = With::new(JumpLinkType::Jal, info.clone());
+                let rd = With::new(Register::X0, info.clone());
+                let name = With::new(LabelString::new("__return__"), info.clone());
+                let new_node =
+                    ParserNode::new_jump_link(inst, rd, name, prev_ret.node().token().clone());
+                #[allow(unused_must_use)]
+                found_ret.set_node(new_node);
             }
         }
 
